@@ -33,6 +33,8 @@ DESIGN_INVS = ["InstanceOK", "Admissible", "GreedyConsistent", "ReviseOptimal", 
                "TerminalOptimal", "Bounded", "NoRejectInMC"]
 CFG_ORACLE = "INIT Init\nNEXT Next\nCHECK_DEADLOCK TRUE\nINVARIANT Emit\n"
 CFG_MACHINE = CFG_ORACLE + "".join(f"INVARIANT {i}\n" for i in DESIGN_INVS)
+TRACE_INVS = [i for i in DESIGN_INVS if i not in ("GreedyConsistent", "ReviseOptimal")]
+CFG_TRACE = CFG_ORACLE + "".join(f"INVARIANT {i}\n" for i in TRACE_INVS)
 
 FAMS = [
     dict(GN=1, GD=1, PD=2, rewards=(-2, -1, 0)),
@@ -58,8 +60,8 @@ REPS = [
     dict(rep="sparse", labels="int", alabels="str", explicit_list=False, dist="sparse"),
     dict(rep="sparse", labels="mixed", alabels="tuple", explicit_list=False, dist="sparse"),
 ]
-TIERS = {"quick": dict(n_inst=170, per_inst=6, n_mc=36, mc_cap=150),
-         "thorough": dict(n_inst=2400, per_inst=8, n_mc=420, mc_cap=1500)}
+TIERS = {"quick": dict(n_inst=112, per_inst=6, n_mc=16, mc_cap=120),
+         "thorough": dict(n_inst=1500, per_inst=8, n_mc=300, mc_cap=600)}
 FLAGS = [(0, 0), (1, 1), (0, 1), (1, 0)]
 HKINDS = ["const", "exact", "slack", "vslack"]
 INST_KEYS = ("N", "K", "PD", "GN", "GD", "ID", "abs", "avail", "P", "R", "p0")
@@ -247,17 +249,18 @@ def listener_class():
 def run_real(m, rc):
     """Run msdm's LAOStar; everything is projected to abstract 0-based indices."""
     from msdm.algorithms.laostar import LAOStar
+    # building the msdm object is the harness' own business: a failure here is a machinery failure
+    if rc["rep"]["rep"] == "sparse":
+        b = build_sparse(m, rc)
+    else:
+        b = build.build_mdp(m, rng=random.Random(rc["lseed"]), **rc["rep"])
+    H = [frac(x) for x in rc["H"]]
+    if rc["hk"] == "const":
+        heuristic = int(H[0]) if H[0].denominator == 1 else float(H[0])     # a plain number
+    else:
+        hv = {b.slabel[i]: float(H[i]) for i in range(m["N"])}
+        heuristic = (lambda table: lambda s: table[s])(hv)
     try:
-        if rc["rep"]["rep"] == "sparse":
-            b = build_sparse(m, rc)
-        else:
-            b = build.build_mdp(m, rng=random.Random(rc["lseed"]), **rc["rep"])
-        H = [frac(x) for x in rc["H"]]
-        if rc["hk"] == "const":
-            heuristic = int(H[0]) if H[0].denominator == 1 else float(H[0])     # a plain number
-        else:
-            hv = {b.slabel[i]: float(H[i]) for i in range(m["N"])}
-            heuristic = (lambda table: lambda s: table[s])(hv)
         with warnings.catch_warnings():
             warnings.simplefilter("ignore")
             r = LAOStar(heuristic=heuristic, randomize_action_order=bool(rc["rao"]),
@@ -329,9 +332,10 @@ def inst_record(m):
     return {k: m[k] for k in INST_KEYS}
 
 
-def trace_record(m, rc, real, tag):
+def trace_record(m, rc, real, tag, vs):
     N, K = m["N"], m["K"]
     rec = inst_record(m)
+    rec["vs"] = vs
     rec["zl"], rec["z0"] = listed_zeros(m, rc)
     rec.update(hk=rc["hk"], H=rc["H"], rao=rc["rao"], rno=rc["rno"], tag=tag)
     nodes = real.get("nodes", {})
@@ -410,6 +414,14 @@ def near(x, exact, tol=0.0):
     return abs(x - float(exact)) <= tol + 1e-9 * max(1.0, abs(float(exact)))
 
 
+def rounding_window(m):
+    """msdm's policy iteration ranks actions by Q rounded to 10 decimals, so a discounted run may settle for an
+    action that is worse by < 1e-10; over the effective horizon 1/(1-gamma) that is worth at most this much.
+    (Undiscounted families have PD*GD <= 4: exact Q gaps are >= 1/384^2, far outside the window.)"""
+    g = m["GN"] / m["GD"]
+    return 1e-10 / (1 - g) if g < 1 else 0.0
+
+
 def compare_steps(real, rec, follow_log):
     """('equal' | 'tie' | 'drift', detail).  rec: machine record with inits / hist / nodes (1-based)."""
     if "obs_error" in real:
@@ -474,8 +486,28 @@ def qstar_differs(m, vstar):
     return False
 
 
+def run_key(run):
+    return digest({"m": run["m"], "rc": run["rc"]})
+
+
 def judge_runs(ctx, runs, reals=None, mcref=None):
-    """runs: [{m, rc}] ; reals: injected results of the real code (selftest) ; mcref: {run index: mc record}."""
+    """runs: [{m, rc[, vs]}] ; reals: injected results of the real code (selftest) ; mcref: {run index: mc record}.
+
+    vs = V* as emitted by the oracle run; computed here (with the instance filter) when missing (replay)."""
+    todo = [r for r in runs if "vs" not in r]
+    if todo:
+        distinct = {}
+        for r in todo:
+            distinct.setdefault(digest(r["m"]), r["m"])
+        keys = list(distinct)
+        orc = tlc_oracle(ctx, [distinct[k] for k in keys], name="oracle-replay")
+        byk = dict(zip(keys, orc))
+        for r in todo:
+            o = byk[digest(r["m"])]
+            f = o["filter"]
+            if not (f["wf"] and f["few"] and f["acts"] and f["proper"]):
+                raise TLCFailure("replayed instance does not satisfy the preconditions of the statement")
+            r["vs"] = o["v"]
     if reals is None:
         reals = [run_real(r["m"], r["rc"]) for r in runs]
     ctx.evaluations += len(runs)
@@ -484,9 +516,9 @@ def judge_runs(ctx, runs, reals=None, mcref=None):
         if "error" in o:
             continue
         pos[i] = len(batch) + 1
-        batch.append(trace_record(r["m"], r["rc"], o, tag=i))
+        batch.append(trace_record(r["m"], r["rc"], o, i, r["vs"]))
     by = {}
-    chunk = 600
+    chunk = 1500
     for k in range(0, len(batch), chunk):
         part = batch[k:k + chunk]
         res = run_tlc(ctx.workdir / f"trace{k}", MODULE, CFG_MACHINE, files={"batch.json": part},
@@ -530,12 +562,13 @@ def judge_one(ctx, i, run, o, rec, mcrec):
     if o["converged"] is not True:
         fail("PlanningResult.converged", f"converged={o['converged']} after {o['iterations']} iterations")
     # ---- clause: initial value = optimal value of the initial distribution
-    if not near(o["initial_value"], vinit):
+    rw = rounding_window(m)
+    if not near(o["initial_value"], vinit, rw):
         fail("PlanningResult.initial_value", f"initial_value={o['initial_value']} but the optimum is {vinit} = {float(vinit)}",
              {"vstar": [str(x) for x in vstar]})
     # ---- clause: every held value is an upper bound on V*
     for s, v in sorted(o.get("svm", {}).items()):
-        if not (v >= float(vstar[s]) - 1e-9 * max(1.0, abs(float(vstar[s])))):
+        if not (v >= float(vstar[s]) - rw - 1e-9 * max(1.0, abs(float(vstar[s])))):
             fail("PlanningResult.state_value_map", f"value {v} held for state {s} is below V*={vstar[s]} = {float(vstar[s])}")
             break
     if "svm" not in o:
@@ -550,7 +583,9 @@ def judge_one(ctx, i, run, o, rec, mcrec):
             ctx.count("policy_not_uniform_over_support_judge_skipped")
         else:
             pinit = frac(rec["pinit"])
-            if rec["polopt"] != 1:
+            if rec["polopt"] != 1 and 0 <= float(vinit - pinit) <= rw:
+                ctx.count("policy_return_within_rounding_window")
+            elif rec["polopt"] != 1:
                 fail("PlanningResult.policy[return]", f"exact return of the returned policy is {pinit} but the optimum is {vinit}",
                      {"pol": {str(k): v for k, v in o["pol"].items()}})
             if i % 7 == 0:
@@ -566,24 +601,24 @@ def judge_one(ctx, i, run, o, rec, mcrec):
                     raise TLCFailure(f"TLA+ policy value and Python policy value disagree (run {i}): {mine} vs {pv}")
                 ctx.count("judge_crosschecks")
     if o.get("pol_raises_at_absorbing"):
-        ctx.drift("policy-at-absorbing-state", {"run": digest(run), "what": o["pol_raises_at_absorbing"]})
+        ctx.drift("policy-at-absorbing-state", {"run": run_key(run), "what": o["pol_raises_at_absorbing"]})
     # ---- DRIFT level: the reference machine explains the run step by step
     explained = False
     if rec["phase"] == "cut":
         ctx.skip("exactness cut: machine integers would leave 30 bits (" + rec["note"][-1]["w"] + ")")
     elif rec["phase"] == "reject":
         nt = rec["note"][-1]
-        ctx.drift("trace-rejected:" + nt["w"], {"run": digest(run), "iteration": nt["i"], "shape": shape})
+        ctx.drift("trace-rejected:" + nt["w"], {"run": run_key(run), "iteration": nt["i"], "shape": shape})
     else:
         st, det = compare_steps(o, rec, follow_log=True)
         ties = [n for n in rec["note"] if n["w"] == "tip-not-exact-best"]
         bad = [n for n in rec["note"] if n["w"] == "best-action-not-a-maximiser"]
         if st == "drift":
-            ctx.drift("machine-vs-run", {"run": digest(run), "detail": det[:200], "shape": shape})
+            ctx.drift("machine-vs-run", {"run": run_key(run), "detail": det[:200], "shape": shape})
         elif bad:
-            ctx.drift("best-action-not-a-maximiser", {"run": digest(run), "iteration": bad[0]["i"], "state": bad[0]["x"] - 1})
+            ctx.drift("best-action-not-a-maximiser", {"run": run_key(run), "iteration": bad[0]["i"], "state": bad[0]["x"] - 1})
         elif ties and not _tips_tie_in_float(o, rc, ties):
-            ctx.drift("tip-not-best", {"run": digest(run), "iteration": ties[0]["i"]})
+            ctx.drift("tip-not-best", {"run": run_key(run), "iteration": ties[0]["i"]})
         else:
             explained = True
             if ties:
@@ -596,11 +631,16 @@ def judge_one(ctx, i, run, o, rec, mcrec):
             ctx.count("A_behaviours_float_tie")
         else:
             explained = False
-            ctx.drift("mc-behaviour-vs-run", {"run": digest(run), "detail": det[:200]})
+            ctx.drift("mc-behaviour-vs-run", {"run": run_key(run), "detail": det[:200]})
     if ok and explained:
         ctx.validated += 1
     # ---- evidence
     ev = o.get("events", [])
+    cc = ctx.extra.setdefault("config_counts", {})
+    for key in (f"h={rc['hk']}", f"rao={rc['rao']},rno={rc['rno']}", f"rep={rc['rep']['rep']}/{rc['rep']['labels']}/{rc['rep']['dist']}",
+                "gamma=%d/%d" % (m["GN"], m["GD"]), "init:" + ("absorbing" if "abs-init" in shape else "regular")
+                + ("/several" if sum(1 for x in m["p0"] if x > 0) > 1 else "")):
+        cc[key] = cc.get(key, 0) + 1
     ctx.count("real_iterations", len(ev))
     if rec["phase"] == "done":
         ctx.count("machine_Start", 1)
@@ -609,7 +649,7 @@ def judge_one(ctx, i, run, o, rec, mcrec):
         ctx.count("machine_Terminate", 1)
     if (sum(1 for x in m["abs"] if not x) >= 2 and len(ev) >= 2 and any(len(e["anc"]) >= 2 for e in ev)
             and qstar_differs(m, vstar)):
-        ctx.nontrivial(digest(run))
+        ctx.nontrivial(run_key(run))
     ctx.sample({"instance": inst_record(m), "config": rc, "vstar": [str(x) for x in vstar], "vinit": str(vinit),
                 "real": {"converged": o["converged"], "initial_value": o["initial_value"], "iterations": o["iterations"],
                          "expanded": [e["expand"] for e in ev], "ancestors": [e["anc"] for e in ev]},
@@ -675,10 +715,10 @@ def run(ctx):
             if any(pv[s] != vs[s] for s in range(m["N"])):
                 raise TLCFailure(f"TLA+ V* and Python V* disagree on instance {j}: {vs} vs {pv}")
             ctx.count("oracle_crosschecks")
-        keep.append((m, vs))
+        keep.append((m, vs, o["v"]))
     # ---- MC: all behaviours on a sub-family
     mc_batch, mc_src = [], []
-    for m, vs in keep:
+    for m, vs, raw in keep:
         if len(mc_batch) >= n_mc:
             break
         if m["PD"] * m["GD"] > 4:
@@ -690,7 +730,7 @@ def run(ctx):
         rec["hs"] = [{"hk": k, "H": heuristic_table(hr, k, vs)} for k in HKINDS]
         rec["flags"] = flags
         mc_batch.append(rec)
-        mc_src.append((m, vs))
+        mc_src.append((m, vs, raw))
         ctx.count("mc_flag_configs", len(flags) * len(HKINDS))
     res = run_tlc(ctx.workdir / "mc", MODULE, CFG_MACHINE, files={"batch.json": mc_batch},
                   env={"BATCH_FILE": "batch.json", "MODE": "mc"})
@@ -706,11 +746,13 @@ def run(ctx):
     ctx.extra["mc_flag_free_behaviours_emitted"] = len(mcrecs)
     # ---- runs of the real code
     runs, mcref = [], {}
-    for m, vs in keep:
-        runs += make_runs(rng, m, vs, per_inst)
+    for m, vs, raw in keep:
+        for r in make_runs(rng, m, vs, per_inst):
+            r["vs"] = raw
+            runs.append(r)
     # pipeline A: the flag-free behaviours TLC emitted, replayed (the seed only decides the initial order)
     plain = [r for r in REPS if r["dist"] not in ("dict_zeros", "sparse")]
-    for j, (m, vs) in enumerate(mc_src, start=1):
+    for j, (m, vs, raw) in enumerate(mc_src, start=1):
         for h in mc_batch[j - 1]["hs"]:
             want = {k[2] for k in mcrecs if k[0] == j and k[1] == h["hk"]}
             got = set()
@@ -724,7 +766,7 @@ def run(ctx):
                 if order in got and "error" not in o:
                     continue
                 got.add(order)
-                runs.append({"m": m, "rc": rc, "_real": o})
+                runs.append({"m": m, "rc": rc, "vs": raw, "_real": o})
                 if (j, h["hk"], order) in mcrecs:
                     mcref[len(runs) - 1] = mcrecs[(j, h["hk"], order)]
     reals = [r.pop("_real") if "_real" in r else run_real(r["m"], r["rc"]) for r in runs]
@@ -744,7 +786,9 @@ def selftest(ctx):
     orc = tlc_oracle(ctx, instances)
     runs = []
     for m, o in zip(instances, orc):
-        runs += make_runs(rng, m, [frac(x) for x in o["v"]], 2)
+        for r in make_runs(rng, m, [frac(x) for x in o["v"]], 2):
+            r["vs"] = o["v"]
+            runs.append(r)
     reals = [run_real(r["m"], r["rc"]) for r in runs]
     a = next(i for i, o in enumerate(reals) if "error" not in o)
     reals[a]["initial_value"] += 0.5
